@@ -1406,11 +1406,14 @@ Qed.
    (F3) a store_metadata that raises leaves the document as it was;
    (F2) the call returns and no lock is left, for every fault plan that never fails the flock.
    "Success => the permanent files are those of the fault-free run" is proved in FaultSuccess.v
-   (one-off faults: every call; persistent faults: every call but delete_object /
-   delete_metadata(pid, None)).
-   MISSING: (F2) when the flock itself fails; (F4) after a failed store_object / tag_object under a ONE-OFF fault the pid is
-   unbound and can be stored again, or its earlier binding is intact (proved for the menu only;
-   FALSE for persistent faults, witness above); the follow-up clauses of [fault_outcome_ok]. *)
+   (one-off faults: every call) and FaultPersist.v (persistent faults: every call).
+   (F4) ONE-OFF faults: sections 8, 9 below for a pid that is unbound in the start state (unbound
+   again and storable at once); FaultBound.v for every start state and every variant of
+   store_object / tag_object (the pid is never half-bound: its reference files are as before the
+   call, or it is completely unbound).
+   MISSING: (F2) when the flock itself fails; the retry ("can be stored again at once") for a pid
+   that was bound, and for store_object with a stream source or supplied size / checksum (menu only;
+   (F4) is FALSE for persistent faults, witness above); the follow-up clauses of [fault_outcome_ok]. *)
 Theorem C13_general_partial :
   forall (w0 : world) (c : call) (p : pid) (st : fstate),
     Inv w0 -> call_pid c = Some p ->
